@@ -21,6 +21,9 @@ func runC05(c *Ctx) {
 	r05_3(c, "R05.3")
 	r05_4(c, "R05.4")
 	r05_5(c, "R05.5")
+	// the receiver's filter is applied to a clone made for the comparison,
+	// never to the stat as sent, which is what is hashed and reported (shared with C02)
+	r02_3(c, "R05.6")
 }
 
 // R05.5: the bytes that are hashed are the bytes that are stored.
